@@ -15,7 +15,7 @@ def fill(claim, na):
         "successful evaluate()/run(); every exit of join()/cancel() - normal, timeout, failing "
         "evaluate - passes clean_up() exactly once; chdir is restored on every path; every "
         "NamedTemporaryFile a class creates is released by its clean_up(); hook overrides chain to "
-        "super(); the state flag is written only by life-cycle methods. Not decided: that results "
+        "super(); the state flag is written only by life-cycle methods. evaluate() refuses every non-zero exit code. Not decided: that results "
         "equal what the external program produced, order restoration, liveness of the child.",
         "Trusted: the may-raise policy (raise statements, self.run()/self.evaluate(), Popen/"
         "communicate(timeout)/open), the lowering-free Python ast, the frozen role tables in "
@@ -35,7 +35,7 @@ def fill(claim, na):
         "bcif.py/component.py defines the six dunders over one backing field, a super() "
         "delegation targets the same dunder with the protocol arity, the '_' key prefix is "
         "applied in all keyed dunders and removed exactly once; the cached row count is reset "
-        "when a column is set. Not decided: the round trip of arbitrary tables as a whole.",
+        "when a column is set. the row-count cache is reset on every path of __setitem__. Not decided: the round trip of arbitrary tables as a whole.",
         "Trusted: the idiom tables of sa/props/C06.py (how a guard is recognised as implied by "
         "'value starts with t'), the assumption that the first column of a looped row starts "
         "the line (checked structurally).",
@@ -57,7 +57,7 @@ def fill(claim, na):
         "set_structure starts from an empty line list on every path; the ID wrap is the identity "
         "on 1..max and applied exactly to positive IDs; for lengths 4 and 5 decode undoes the "
         "offset encode applies, the ranges are contiguous and max_hybrid36_number is the last "
-        "accepted value. Not decided: value round trip, model indexing, bond selection for CONECT.",
+        "accepted value. the hybrid-36 ids computed in the hybrid36 arm are not overwritten after the mode switch. Not decided: value round trip, model indexing, bond selection for CONECT.",
         "Trusted: summary of number_of_integer_digits (checked structurally), np.round/format "
         "agreement on the integer part, float32 coordinates (checked in atoms.py), float64 "
         "annotations, the frozen writer-variable/slice pairing table in sa/props/C07.py.",
@@ -183,7 +183,7 @@ def fill(claim, na):
         "the nine residue-info fields and charges, model i is conformer position i; a metadata "
         "value line starting with '>' or '$$$$' is refused (also by the constructor), key "
         "components are serialised in the forms the component regexes parse; SDFile stores "
-        "lazily parsed records and compares through __getitem__. Not decided: coordinates to "
+        "lazily parsed records and compares through __getitem__. SDRecord getters store what they parse on demand; every V2000 reader slice is an obligation. Not decided: coordinates to "
         "0.0001, V3000 property parsing, kekulisation.",
         "Trusted: float32 coordinates; blank lines / surrounding blanks in metadata values are "
         "format limits; idiom tables in sa/props/C18.py.",
@@ -206,7 +206,7 @@ def fill(claim, na):
         "only by unsigned char values, its sentinel is the alphabet length, the decoder tests >= "
         "before its unchecked read; all Sequence subclasses satisfy the Copyable contract, copy() "
         "and reverse(copy=True) copy the code; encode*/decode* raise AlphabetError only; the ORF "
-        "lists of translate() are permuted together. Not decided: encode/decode identity on all "
+        "lists of translate() are permuted together. a shallow copy is never written into (derived codon tables start from a deep copy); the mapper shortcut requires the encoding alphabet to extend the decoding one. Not decided: encode/decode identity on all "
         "inputs, translation values, ORF positions.",
         "Trusted: IUPAC oracle table; Cython lowering for parameter types; idiom tables in sa/props/C03.py.",
         "DESIGN.md section 2, C03",
@@ -229,7 +229,7 @@ def fill(claim, na):
         "the PDBx and the PDB reader, the highest-occupancy filter starts below every admissible "
         "sum; no comparison is an unparenthesised operand of a '&'/'|' chain (thorough: all 187 "
         "Python files), the canonical-link filter has its five conjuncts; integer down-casting "
-        "checks the minimum and the maximum. Not decided: equality of the structure read back, "
+        "checks the minimum and the maximum. stacks are laid out model-major consistently (model numbers repeated, data and mask tiled alike, reader reshape); 'first' altloc keeps file order; compress() range guard as in C05. Not decided: equality of the structure read back, "
         "struct_conn matching on data, box equivalence.",
         "Trusted: mmCIF item semantics frozen in ATOM_SITE; name-based call resolution inside convert.py.",
         "DESIGN.md section 2, C04",
@@ -250,7 +250,7 @@ def fill(claim, na):
         "IntegerPacking cast unchecked); _safe_cast tests both bounds before converting and "
         "refuses float->int; compress() tests finiteness and |x|*factor < int32 max before the "
         "fixed point encoding, uses the tested factor and falls back losslessly; the integer "
-        "down-cast tests minimum and maximum. Not decided: numeric invertibility within tolerance.",
+        "down-cast tests minimum and maximum. bcif.py wire agreement: serialize keys = deserialize keys, each value returns to the attribute it came from, element keys, one-prefix removal, codec pairing, msgpack type flags. Not decided: numeric invertibility within tolerance.",
         "Trusted: argsort/searchsorted results are bounded by the array length; Cython lowering.",
         "DESIGN.md section 2, C05",
     )
@@ -389,7 +389,7 @@ def fill(claim, na):
         "copies as indices (cubic identity) and no public parameter is ignored (one defect fixed); "
         "remove_pbc moves molecules by (wrapped centre - centre); the literal rotation matrices are "
         "orthonormal with determinant +1, fix their axis, are counter-clockwise and are composed in the "
-        "documented order. Not decided: numerical accuracy, minimality of the triclinic image as a "
+        "documented order. an explicit box wins over atoms.box. Not decided: numerical accuracy, minimality of the triclinic image as a "
         "value statement, bond-graph behaviour of remove_pbc.",
         "Trusted: numpy matmul/cross/arccos/arctan2/argmin semantics.",
         "DESIGN.md section 2, C15",
